@@ -70,7 +70,7 @@ class C15(Check):
             yield {"kind": "hist", "i": i, "seed": seed,
                    "clock": ["real", "coarse", "backwards", "frozen", "stepback"][i % 5]}
         for stored in ("lead", "nolead"):
-            for spelled in ("same", "lead", "nolead"):
+            for spelled in ("same", "lead", "nolead", "bare_string"):
                 for registered in (1, 2):
                     yield {"kind": "delete_spelling", "stored": stored, "delete": spelled, "registered": registered}
         nmax = 4 if tier == "quick" else 5
@@ -117,10 +117,20 @@ class C15(Check):
                     res.count("double_registrations")
                 before = h.last_view.current()
                 norm = reader.norm(stored)
-                victim = {"same": stored, "lead": "/" + norm, "nolead": norm}[case["delete"]]
-                with h.table.new_transaction() as tx:
-                    tx.delete_files([victim])
-                    tx.commit()
+                victim = {"same": stored, "lead": "/" + norm, "nolead": norm, "bare_string": stored}[case["delete"]]
+                try:
+                    with h.table.new_transaction() as tx:
+                        # bare_string: the path itself instead of a list of paths (a str iterates its characters)
+                        tx.delete_files(victim if case["delete"] == "bare_string" else [victim])
+                        tx.commit()
+                except (TypeError, ValueError):
+                    if case["delete"] != "bare_string":
+                        raise
+                    res.evals += 1
+                    res.count("deletes_checked")
+                    res.count("bare_string_request_rejected")
+                    res.key(["delete_spelling", case["stored"], case["delete"], case.get("registered", 1)])
+                    return
                 tv = h.observe(("delete", victim), True)
                 res.evals += 1
                 res.count("deletes_checked")
